@@ -48,9 +48,9 @@ static void vpl_widen(QAD *d, uint32_t off, const uint8_t *s, uint32_t n, uint32
 static uint8_t vpl_narrow(QAD *d, uint32_t off, const uint16_t *s, uint32_t n, uint32_t hint, uint16_t lim) { uint8_t ok = 1; for (uint32_t i = 0; i < H16(s, n); i++) { if (i >= n) break; uint16_t c = s[i]; if (c >= lim) { ok = 0; c = '?'; } BD(d)[off + i] = (uint8_t)c; } return ok; }
 static void vpl_fill16(QAD *d, uint32_t off, uint16_t c, uint32_t n, uint32_t hint) { for (uint32_t i = 0; i < hint; i++) { if (i >= n) break; SD(d)[off + i] = c; } }
 static void vpl_fill8(QAD *d, uint32_t off, uint8_t c, uint32_t n, uint32_t hint) { for (uint32_t i = 0; i < hint; i++) { if (i >= n) break; BD(d)[off + i] = c; } }
-static int vpl_cmp16(const uint16_t *a, const uint16_t *b, uint32_t n, uint32_t ha, uint32_t hb) { for (uint32_t i = 0; i < H16(a, n) && i < H16(b, n); i++) { if (i >= n) break; if (a[i] != b[i]) return a[i] < b[i] ? -1 : 1; } return 0; }
-static int vpl_cmp8(const uint8_t *a, const uint8_t *b, uint32_t n, uint32_t ha, uint32_t hb) { for (uint32_t i = 0; i < H8(a, n) && i < H8(b, n); i++) { if (i >= n) break; if (a[i] != b[i]) return a[i] < b[i] ? -1 : 1; } return 0; }
-static int vpl_cmp16_8(const uint16_t *a, const uint8_t *b, uint32_t n, uint32_t ha, uint32_t hb) { for (uint32_t i = 0; i < H16(a, n) && i < hb; i++) { if (i >= n) break; if (a[i] != b[i]) return a[i] < b[i] ? -1 : 1; } return 0; }
+static int vpl_cmp16(const uint16_t *a, const uint16_t *b, uint32_t n, uint32_t na, uint32_t nb) { for (uint32_t i = 0; i < H16(a, na) && i < H16(b, nb); i++) { if (i >= n) break; if (a[i] != b[i]) return a[i] < b[i] ? -1 : 1; } return 0; }
+static int vpl_cmp8(const uint8_t *a, const uint8_t *b, uint32_t n, uint32_t na, uint32_t nb) { for (uint32_t i = 0; i < H8(a, na) && i < H8(b, nb); i++) { if (i >= n) break; if (a[i] != b[i]) return a[i] < b[i] ? -1 : 1; } return 0; }
+static int vpl_cmp16_8(const uint16_t *a, const uint8_t *b, uint32_t n, uint32_t na, uint32_t nb) { for (uint32_t i = 0; i < H16(a, na) && i < nb; i++) { if (i >= n) break; if (a[i] != b[i]) return a[i] < b[i] ? -1 : 1; } return 0; }
 static uint32_t vpl_strlen8(const uint8_t *p) { uint32_t n = 0; for (; n < QB_CAP; n++) { if (!p[n]) break; } return n; }
 static uint32_t vpl_strlen16(const uint16_t *p) { uint32_t n = 0; for (; n < QS_CAP; n++) { if (!p[n]) break; } return n; }
 static int64_t vpl_find16(const uint16_t *a, uint32_t na, uint32_t hint, uint32_t from, uint16_t c) { for (uint32_t i = 0; i < H16(a, na); i++) { if (i >= na) break; if (i >= from && a[i] == c) return i; } return -1; }
@@ -100,9 +100,9 @@ static int num_eq(struct numv a, struct numv b) { return a.isnum && b.isnum && a
 static int qb_eq_raw(QAD *a, QAD *b);
 static int view_eq(uint64_t na, const uint16_t *a, uint64_t nb, const uint16_t *b) { struct numv ia = num16(a, na), ib = num16(b, nb);
   if (ia.isnum || ib.isnum) return num_eq(ia, ib); QAD *ta = b64_16(a, na), *tb = b64_16(b, nb); if (ta || tb) return ta && tb && qb_eq_raw(ta, tb);
-  if (na != nb) return 0; return vpl_cmp16(a, b, (uint32_t)na, hint16(a, na), hint16(b, nb)) == 0; }
+  if (na != nb) return 0; return vpl_cmp16(a, b, (uint32_t)na, (uint32_t)na, (uint32_t)nb) == 0; }
 static int view_cmp(uint64_t na, const uint16_t *a, uint64_t nb, const uint16_t *b) { if (view_eq(na, a, nb, b)) return 0; uint32_t m = (uint32_t)(na < nb ? na : nb);
-  int c = vpl_cmp16(a, b, m, hint16(a, na), hint16(b, nb)); if (c) return c; return na == nb ? 1 /* distinct numbers with equal placeholder */ : (na < nb ? -1 : 1); }
+  int c = vpl_cmp16(a, b, m, (uint32_t)na, (uint32_t)nb); if (c) return c; return na == nb ? 1 /* distinct numbers with equal placeholder */ : (na < nb ? -1 : 1); }
 /* QAD-based loops: length, hint and data are dereferenced inside the loop condition/body so that they fold per candidate block */
 #define QHINT16(d) ((d)->f3 == QS_OFF ? ((struct qs*)(d))->hint : (d)->f1)
 #define QHINT8(d) ((d)->f3 == QB_OFF ? ((struct qb*)(d))->hint : (d)->f1)
@@ -151,19 +151,19 @@ char* _ZN7QStringaSE5QChar(char *self, uint16_t c) { QAD *d = qs_new(1, 1); SD(d
 char* _ZN7QStringaSE13QLatin1String(char *self, uint32_t n, char *l) { QAD *d = qs_new(n, n); vpl_widen(d, 0, (uint8_t*)l, n, n); *(QAD**)self = d; return self; }
 uint8_t _ZeqRK7QStringS1_(char *a, char *b) { return d_eq(*(QAD**)a, *(QAD**)b); }
 uint8_t _ZltRK7QStringS1_(char *a, char *b) { QAD *x = *(QAD**)a, *y = *(QAD**)b; return view_cmp(x->f1, qs_chars(x), y->f1, qs_chars(y)) < 0; }
-uint8_t _ZNK7QStringeqE13QLatin1String(char *a, uint32_t n, char *l) { QAD *x = *(QAD**)a; if (numS(x).isnum || x->f1 != n) return 0; return vpl_cmp16_8(qs_chars(x), (uint8_t*)l, n, qs_hint(x), n) == 0; }
+uint8_t _ZNK7QStringeqE13QLatin1String(char *a, uint32_t n, char *l) { QAD *x = *(QAD**)a; if (numS(x).isnum || x->f1 != n) return 0; return vpl_cmp16_8(qs_chars(x), (uint8_t*)l, n, x->f1, n) == 0; }
 uint32_t _ZN9QtPrivate14compareStringsE11QStringViewS0_N2Qt15CaseSensitivityE(uint64_t na, char *a, uint64_t nb, char *b, uint32_t cs) {
   ASSERT(cs == 1, "case-insensitive compare not modelled"); return (uint32_t)view_cmp(na, (uint16_t*)a, nb, (uint16_t*)b); }
 uint8_t _ZN9QtPrivate12equalStringsE11QStringViewS0_(uint64_t na, char *a, uint64_t nb, char *b) { return view_eq(na, (uint16_t*)a, nb, (uint16_t*)b); }
 uint32_t _ZN9QtPrivate14compareStringsE11QStringView13QLatin1StringN2Qt15CaseSensitivityE(uint64_t na, char *a, uint32_t nb, char *b, uint32_t cs) {
   if (num16((uint16_t*)a, na).isnum) return 1; uint32_t m = (uint32_t)(na < nb ? na : nb);
-  int c = vpl_cmp16_8((uint16_t*)a, (uint8_t*)b, m, hint16((uint16_t*)a, na), nb); if (c) return (uint32_t)c; return na == nb ? 0 : (na < nb ? (uint32_t)-1 : 1); }
+  int c = vpl_cmp16_8((uint16_t*)a, (uint8_t*)b, m, (uint32_t)na, nb); if (c) return (uint32_t)c; return na == nb ? 0 : (na < nb ? (uint32_t)-1 : 1); }
 uint8_t _ZN9QtPrivate10startsWithE11QStringViewS0_N2Qt15CaseSensitivityE(uint64_t na, char *a, uint64_t nb, char *b, uint32_t cs) {
   if (nb > na) return 0; if (nb == 0) return 1; if (num16((uint16_t*)a, na).isnum || num16((uint16_t*)b, nb).isnum) return 0;
-  return vpl_cmp16((uint16_t*)a, (uint16_t*)b, (uint32_t)nb, hint16((uint16_t*)a, na), hint16((uint16_t*)b, nb)) == 0; }
+  return vpl_cmp16((uint16_t*)a, (uint16_t*)b, (uint32_t)nb, (uint32_t)na, (uint32_t)nb) == 0; }
 uint8_t _ZN9QtPrivate8endsWithE11QStringViewS0_N2Qt15CaseSensitivityE(uint64_t na, char *a, uint64_t nb, char *b, uint32_t cs) {
   if (nb > na) return 0; if (nb == 0) return 1; if (num16((uint16_t*)a, na).isnum || num16((uint16_t*)b, nb).isnum) return 0;
-  return vpl_cmp16((uint16_t*)a + (na - nb), (uint16_t*)b, (uint32_t)nb, hint16((uint16_t*)b, nb), hint16((uint16_t*)b, nb)) == 0; }
+  return vpl_cmp16((uint16_t*)a + (na - nb), (uint16_t*)b, (uint32_t)nb, (uint32_t)nb, (uint32_t)nb) == 0; }
 uint64_t _ZN9QtPrivate8findCharE11QStringView5QCharxN2Qt15CaseSensitivityE(uint64_t na, char *a, uint16_t c, uint64_t from, uint32_t cs) {
   if ((int64_t)from < 0) from = 0; if (num16((uint16_t*)a, na).isnum) return (uint64_t)-1; return (uint64_t)vpl_find16((uint16_t*)a, (uint32_t)na, hint16((uint16_t*)a, na), (uint32_t)from, c); }
 uint32_t _ZNK7QString7indexOfE5QChariN2Qt15CaseSensitivityE(char *self, uint16_t c, uint32_t from, uint32_t cs) { QAD *d = *(QAD**)self; if ((int32_t)from < 0) from = 0; if (numS(d).isnum) return (uint32_t)-1;
@@ -272,9 +272,9 @@ void _ZNK10QByteArray5rightEi(char *ret, char *self, uint32_t n) { QAD *o = *(QA
 uint8_t _ZNK10QByteArray6isNullEv(char *self) { return *(QAD**)self == SHARED_NULL; }
 uint32_t qstrcmp(char *a, char *b) { if (!a || !b) return a ? 1 : (b ? (uint32_t)-1 : 0); uint32_t na = vpl_strlen8((uint8_t*)a), nb = vpl_strlen8((uint8_t*)b); int c = vpl_cmp8((uint8_t*)a, (uint8_t*)b, umin(na, nb), na, nb); if (c) return (uint32_t)c; return na == nb ? 0 : (na < nb ? (uint32_t)-1 : 1); }
 uint32_t _Z7qstrcmpRK10QByteArrayS1_(char *a, char *b) { QAD *x = *(QAD**)a, *y = *(QAD**)b; if (qb_eq(x, y)) return 0; uint32_t m = umin(x->f1, y->f1);
-  int c = vpl_cmp8(qb_bytes(x), qb_bytes(y), m, qb_hint(x), qb_hint(y)); if (c) return (uint32_t)c; return x->f1 < y->f1 ? (uint32_t)-1 : 1; }
+  int c = vpl_cmp8(qb_bytes(x), qb_bytes(y), m, x->f1, y->f1); if (c) return (uint32_t)c; return x->f1 < y->f1 ? (uint32_t)-1 : 1; }
 uint32_t _Z7qstrcmpRK10QByteArrayPKc(char *a, char *b) { QAD *x = *(QAD**)a; if (!b) return x->f1 ? 1 : 0; if (numB(x).isnum) return 1; uint32_t nb = vpl_strlen8((uint8_t*)b), m = umin(x->f1, nb);
-  int c = vpl_cmp8(qb_bytes(x), (uint8_t*)b, m, qb_hint(x), nb); if (c) return (uint32_t)c; return x->f1 == nb ? 0 : (x->f1 < nb ? (uint32_t)-1 : 1); }
+  int c = vpl_cmp8(qb_bytes(x), (uint8_t*)b, m, x->f1, nb); if (c) return (uint32_t)c; return x->f1 == nb ? 0 : (x->f1 < nb ? (uint32_t)-1 : 1); }
 uint32_t _ZNK10QByteArray7indexOfEci(char *self, uint8_t c, uint32_t from) { QAD *d = *(QAD**)self; if ((int32_t)from < 0) from = 0; if (numB(d).isnum) return (uint32_t)-1; return (uint32_t)vpl_find8(qb_bytes(d), d->f1, qb_hint(d), from, c); }
 /* base64 (abstract, see b64 above) */
 void _ZNK10QByteArray8toBase64E6QFlagsINS_12Base64OptionEE(char *ret, char *self, uint32_t opt) { QAD *raw = *(QAD**)self; if (raw->f1 == 0) { *(QAD**)ret = qb_new(0, 0); return; }
